@@ -252,18 +252,26 @@ theorem stmt_semF {ctx : Ctx} {T : List FEntry} {B : Nat} (hT : TableOK T) (hctx
     have hc4 : ctxOf s4 = ctx := by rw [hb.ctx]; exact hc3
     have hB4 : B ≤ s4.forCounter := Nat.le_trans hB3 hb.forCounter
     have he := elifs_semF hT hctx elifs hfe ecs s4 s5 hc4 hB4 h5
-    obtain ⟨bc, nb, mb, e4, simb⟩ := hb
-    obtain ⟨tree, nt, mt, e5, simt⟩ := he
+    obtain ⟨bc, nb, mb, e4, hlb, simb⟩ := hb
+    obtain ⟨tree, nt, mt, e5, hlt, simt⟩ := he
     have hc5 : ctxOf s5 = ctx := by rw [e5]; exact hc4
     have hB5 : B ≤ s5.forCounter := by rw [e5]; simp [adv2]; omega
     have hl := else_semF hT hctx els hfl s5 s6 hc5 hB5 h6
-    obtain ⟨et, nl, ml, e6, siml⟩ := hl
+    obtain ⟨et, nl, ml, e6, hle, siml⟩ := hl
     have e7 := addLine_ok (l := .fi) h7
     refine ⟨(newc.reverse ++ newe.reverse).map Cmd.simple ++ [Cmd.ifc (.ifStart "if" (firstValue c)) bc tree et],
-      nc + ne + nb + nt + nl, mb + mt + ml, ?_, ?_⟩
+      nc + ne + nb + nt + nl, mb + mt + ml, ?_, ?_, ?_⟩
     · rw [e7, e6, e5, e4, e3]
       apply St.ext2 <;>
         simp [adv, adv2, flats_append, flats_simples, flats_simples_reverse, flats, flat, Nat.add_assoc, List.reverse_append]
+    · have h3f : s3.forCounter = s.forCounter := by rw [e3]; rfl
+      have h4f : s4.forCounter = s3.forCounter + mb := by rw [e4]; rfl
+      have h5f : s5.forCounter = s4.forCounter + mt := by rw [e5]; rfl
+      rw [flats_append, flats_simples]
+      refine (((simc.lines.reverse).append (sime.lines.reverse)).mono (Nat.zero_le _)).append ?_
+      simp only [flats, flat, List.append_nil]
+      refine LinesOK.cons (sline_plain _ _ _ _ rfl rfl) ?_
+      refine (hlb.mono (by omega)).append ((hlt.mono (by omega)).append ((hle.mono (by omega)).append (linesOK_plain1 _ _ _ _ rfl rfl)))
     · intro fuel c0 o c' hs m hi
       have h3f : s3.forCounter = s.forCounter := by rw [e3]; rfl
       have h4f : s4.forCounter = s3.forCounter + mb := by rw [e4]; rfl
@@ -274,11 +282,11 @@ theorem stmt_semF {ctx : Ctx} {T : List FEntry} {B : Nat} (hT : TableOK T) (hctx
         simp only [execS] at hs
         split at hs
         · rename_i ov c1 hce
-          obtain ⟨m1, ex1, hi1, hcl1, hk1, hh1⟩ := runs_ok_then (simc1 f c0 _ (single_ok hce) m hi)
+          obtain ⟨m1, ex1, hi1, hcl1, hk1, hh1⟩ := runs_ok_then (simc1.run f c0 _ (single_ok hce) m hi)
           rw [evalCs_eq_args] at hs
           split at hs
           · rename_i os c2 hcs
-            obtain ⟨m2, ex2, hi2, hcl2, hk2, hh2⟩ := runs_ok_then (sime f c1 _ hcs m1 hi1)
+            obtain ⟨m2, ex2, hi2, hcl2, hk2, hh2⟩ := runs_ok_then (sime.run f c1 _ hcs m1 hi1)
             have pre : ExecCmds ((newc.reverse ++ newe.reverse).map Cmd.simple) m .normal m2 := by
               rw [List.map_append]; exact execCmds_append ex1 ex2
             have kpre : Kept ctx T B s.forCounter c2 m m2 := ⟨hi2, hcl1.trans hcl2, (hk1.flagsKept).trans (hk2.flagsKept) (Nat.le_refl _)⟩
@@ -303,7 +311,7 @@ theorem stmt_semF {ctx : Ctx} {T : List FEntry} {B : Nat} (hT : TableOK T) (hctx
           · rename_i k c2 hcs
             simp only [Option.some.injEq, Prod.mk.injEq] at hs
             obtain ⟨rfl, rfl⟩ := hs
-            obtain ⟨m2, ex2, ho2⟩ := sime f c1 _ hcs m1 hi1
+            obtain ⟨m2, ex2, ho2⟩ := sime.run f c1 _ hcs m1 hi1
             refine ⟨m2, .exit k, ?_, rfl, ho2, fun hne => absurd rfl (hne k), fun vs hv => by cases hv⟩
             rw [List.map_append, List.append_assoc]
             exact execCmds_append ex1 (execCmds_stop_append _ ex2 (by simp))
@@ -311,7 +319,7 @@ theorem stmt_semF {ctx : Ctx} {T : List FEntry} {B : Nat} (hT : TableOK T) (hctx
         · rename_i k c1 hce
           simp only [Option.some.injEq, Prod.mk.injEq] at hs
           obtain ⟨rfl, rfl⟩ := hs
-          obtain ⟨m1, ex1, ho1⟩ := simc1 f c0 _ (single_exit hce) m hi
+          obtain ⟨m1, ex1, ho1⟩ := simc1.run f c0 _ (single_exit hce) m hi
           refine ⟨m1, .exit k, ?_, rfl, ho1, fun hne => absurd rfl (hne k), fun vs hv => by cases hv⟩
           rw [List.map_append, List.append_assoc]
           exact execCmds_stop_append _ ex1 (by simp)
@@ -333,8 +341,8 @@ theorem stmt_semF {ctx : Ctx} {T : List FEntry} {B : Nat} (hT : TableOK T) (hctx
     have e2 := forStart_ok h2
     have hc2 : ctxOf s2 = ctx := by rw [e2]; exact hc1
     have hinc := incr_semF hT hctx incr hfn s2 s3 s1.forCounter s1.fors hc2 (by rw [e2]) (by rw [e2]; simp) (by rw [e2]; simp; omega) (by omega) h3
-    obtain ⟨ci, ni, mi, ei, simi⟩ := hi
-    obtain ⟨P, np, mp, ep, simP, simP0⟩ := hinc
+    obtain ⟨ci, ni, mi, ei, hli, simi⟩ := hi
+    obtain ⟨P, np, mp, ep, hlP, simP, simP0⟩ := hinc
     have hc3 : ctxOf s3 = ctx := by rw [ep]; exact hc2
     obtain ⟨newc, nc, e4, simc⟩ := expr_semF hT hctx cond s3 c s4 hfc hc3 h4
     have simc1 := esim_first simc
@@ -342,14 +350,26 @@ theorem stmt_semF {ctx : Ctx} {T : List FEntry} {B : Nat} (hT : TableOK T) (hctx
     have hc5 : ctxOf s5 = ctx := by rw [e5, e4]; exact hc3
     have hs5f : s5.forCounter = s1.forCounter + 1 + mp := by rw [e5, e4, ep, e2]; rfl
     have hb := block_semF hT hctx body hfb s5 s6 hc5 (by omega) h6
-    obtain ⟨bc, nb, mb, eb, simb⟩ := hb
+    obtain ⟨bc, nb, mb, eb, hlb, simb⟩ := hb
     have e7 := forEnd_ok h7
     refine ⟨ci ++ [Cmd.simple (.forFlagInit s1.forCounter),
         Cmd.loop (P ++ (newc.reverse.map Cmd.simple ++ (Cmd.simple (.forCond (firstValue c)) :: bc)))],
-      ni + np + nc + nb, mi + 1 + mp + mb, ?_, ?_⟩
+      ni + np + nc + nb, mi + 1 + mp + mb, ?_, ?_, ?_⟩
     · rw [e7, eb, e5, e4, ep, e2, ei]
       apply St.ext2 <;>
         simp [adv, adv2, flats_append, flats_simples, flats_simples_reverse, flats, flat, Nat.add_assoc, List.reverse_append]
+    · have h1f : s1.forCounter = s.forCounter + mi := by rw [ei]; rfl
+      have h2f : s2.forCounter = s1.forCounter + 1 := by rw [e2]
+      rw [flats_append]
+      refine (hli.mono (by omega)).append ?_
+      simp only [flats, flat, List.append_nil, List.singleton_append]
+      refine LinesOK.cons ⟨fun y hy => ?_, fun nm ar e' => by cases e'⟩ (LinesOK.cons (sline_plain _ _ _ _ rfl rfl) ?_)
+      · simp only [lineTargets, List.mem_singleton] at hy
+        exact Or.inr (Or.inr (Or.inr (Or.inr ⟨s1.forCounter, by omega, hy⟩)))
+      · rw [flats_append, flats_append, flats_simples]
+        simp only [flats, flat, List.singleton_append]
+        refine ((hlP.mono (by omega)).append (((simc.lines.reverse).mono (Nat.zero_le _)).append
+          (LinesOK.cons (sline_plain _ _ _ _ rfl rfl) (hlb.mono (by omega))))).append (linesOK_plain1 _ _ _ _ rfl rfl)
     · intro fuel c0 o c' hs m hi0
       let n := s1.forCounter
       have hBn : B ≤ n := by show B ≤ s1.forCounter; omega
@@ -396,7 +416,7 @@ theorem opt_semF {ctx : Ctx} {T : List FEntry} {B : Nat} (hT : TableOK T) (hctx 
     intro s s' hc hB h
     unfold evalInit at h
     obtain ⟨_, es⟩ := pure_ok h
-    refine ⟨[], 0, 0, es, ?_⟩
+    refine ⟨[], 0, 0, es, by simp [flats]; exact LinesOK.nil _ _ _, ?_⟩
     intro fuel c o c' hs m hi
     simp only [srcIncrF, Option.some.injEq, Prod.mk.injEq] at hs
     obtain ⟨rfl, rfl⟩ := hs
@@ -404,7 +424,7 @@ theorem opt_semF {ctx : Ctx} {T : List FEntry} {B : Nat} (hT : TableOK T) (hctx 
 
 theorem incr_semF {ctx : Ctx} {T : List FEntry} {B : Nat} (hT : TableOK T) (hctx : CtxOK ctx T B) (incr : Option Stmt) (hf : fragO (tnames T) incr = true) :
     ∀ s s' n rest, ctxOf s = ctx → s.fors = n :: rest → n < s.forCounter → B ≤ s.forCounter → B ≤ n → evalIncr conv incr s = .ok ((), s') →
-      ∃ P nn mm, s' = adv2 s (flats P).reverse nn mm ∧ IncrStepF ctx T B incr P n ∧
+      ∃ P nn mm, s' = adv2 s (flats P).reverse nn mm ∧ LinesOK ctx (s.forCounter + mm) (tnames T) (flats P) ∧ IncrStepF ctx T B incr P n ∧
         (∀ c m, Inv ctx T c m → m.ρ (flagName n) = "" →
           ∃ m1, ExecCmds P m .normal m1 ∧ FlagOKF incr n m1.ρ ∧ Inv ctx T c m1 ∧ Ctl m m1 ∧ ∀ x, x ≠ flagName n → m1.ρ x = m.ρ x) := by
   match incr with
@@ -412,7 +432,7 @@ theorem incr_semF {ctx : Ctx} {T : List FEntry} {B : Nat} (hT : TableOK T) (hctx
     intro s s' n rest hc hfo hn hB hBn h
     unfold evalIncr at h
     obtain ⟨_, es⟩ := pure_ok h
-    refine ⟨[], 0, 0, es, ?_, ?_⟩
+    refine ⟨[], 0, 0, es, by simp [flats]; exact LinesOK.nil _ _ _, ?_, ?_⟩
     · intro fuel cb o c2 hs m hi hfl
       simp only [srcIncrF, Option.some.injEq, Prod.mk.injEq] at hs
       obtain ⟨rfl, rfl⟩ := hs
@@ -429,10 +449,17 @@ theorem incr_semF {ctx : Ctx} {T : List FEntry} {B : Nat} (hT : TableOK T) (hctx
     have hsi := stmt_semF hT hctx i (by simpa [fragO] using hf) s1 s2 hc1 (by rw [e1]; exact hB) h2
     have hfo2 : s2.fors = n :: rest := by rw [hsi.fors, e1]; exact hfo
     have e3 := forIncrementEnd_ok hfo2 h3
-    obtain ⟨ci, ni, mi, ei, simi⟩ := hsi
-    refine ⟨[Cmd.ifc (.incrStart n) ci [] none, Cmd.simple (.incrFlagSet n)], ni, mi, ?_, ?_, ?_⟩
+    obtain ⟨ci, ni, mi, ei, hlci, simi⟩ := hsi
+    refine ⟨[Cmd.ifc (.incrStart n) ci [] none, Cmd.simple (.incrFlagSet n)], ni, mi, ?_, ?_, ?_, ?_⟩
     · rw [e3, ei, e1]
       apply St.ext2 <;> simp [adv2, flats, flat, flatElifs, flatElse]
+    · have h1f : s1.forCounter = s.forCounter := by rw [e1]
+      simp only [flats, flat, flatElifs, flatElse, List.append_nil, List.nil_append]
+      show LinesOK ctx (s.forCounter + mi) (tnames T) (Line.incrStart n :: ((flats ci ++ [Line.fi]) ++ [Line.incrFlagSet n]))
+      refine LinesOK.cons (sline_plain _ _ _ _ rfl rfl) (LinesOK.append (LinesOK.append (hlci.mono (by omega)) (linesOK_plain1 _ _ _ _ rfl rfl)) ?_)
+      refine LinesOK.cons ⟨fun y hy => ?_, fun nm ar e' => by cases e'⟩ (LinesOK.nil _ _ _)
+      simp only [lineTargets, List.mem_singleton] at hy
+      exact Or.inr (Or.inr (Or.inr (Or.inr ⟨n, by omega, hy⟩)))
     · intro fuel cb o c2 hs m hi hfl
       have hs' : execS fuel i cb = some (o, c2) := hs
       obtain ⟨m4, o4, ex4, hr4, ho4, hk4, _⟩ := simi fuel cb o c2 hs' m hi
@@ -468,7 +495,7 @@ theorem block_semF {ctx : Ctx} {T : List FEntry} {B : Nat} (hT : TableOK T) (hct
     unfold evalBlock at h
     have h' : addLine .nop s = .ok ((), s') := h
     have e := addLine_ok h'
-    refine ⟨[Cmd.simple .nop], 0, 0, by rw [e]; simp [adv2, flats, flat], ?_⟩
+    refine ⟨[Cmd.simple .nop], 0, 0, by rw [e]; simp [adv2, flats, flat], linesOK_simples (ls := [.nop]) (linesOK_plain1 _ _ _ _ rfl rfl), ?_⟩
     intro fuel c o c' hs m hi
     cases fuel with
     | zero => simp [execSs] at hs
@@ -506,13 +533,13 @@ theorem stmts_semF {ctx : Ctx} {T : List FEntry} {B : Nat} (hT : TableOK T) (hct
 
 theorem else_semF {ctx : Ctx} {T : List FEntry} {B : Nat} (hT : TableOK T) (hctx : CtxOK ctx T B) (els : List Stmt) (hf : fragSs (tnames T) els = true) :
     ∀ s s', ctxOf s = ctx → B ≤ s.forCounter → evalElse conv els s = .ok ((), s') →
-      ∃ t n mm, s' = adv2 s (flatElse t).reverse n mm ∧ ElseSimF ctx T B els t s.forCounter := by
+      ∃ t n mm, s' = adv2 s (flatElse t).reverse n mm ∧ LinesOK ctx (s.forCounter + mm) (tnames T) (flatElse t) ∧ ElseSimF ctx T B els t s.forCounter := by
   match els with
   | [] =>
     intro s s' hc hB h
     unfold evalElse at h
     obtain ⟨_, es⟩ := pure_ok h
-    refine ⟨none, 0, 0, es, ?_⟩
+    refine ⟨none, 0, 0, es, by simp [flatElse]; exact LinesOK.nil _ _ _, ?_⟩
     intro fuel c o c' hs m hi
     cases fuel with
     | zero => simp [execSs] at hs
@@ -534,10 +561,13 @@ theorem else_semF {ctx : Ctx} {T : List FEntry} {B : Nat} (hT : TableOK T) (hctx
     obtain ⟨_, e4⟩ := pure_ok (a := ()) h4
     have hseq : StmtSemF ctx T B (fun f c => execSs f (st :: rest) c) s1 s3 :=
       stmtSemF_seq hs1 hs2 (fun _ _ _ _ h => execSs_cons_cases h)
-    obtain ⟨cs, n, mm, e, sim⟩ := hseq
-    refine ⟨some cs, n, mm, ?_, ?_⟩
+    obtain ⟨cs, n, mm, e, hlcs, sim⟩ := hseq
+    refine ⟨some cs, n, mm, ?_, ?_, ?_⟩
     · rw [e4, e, e1]
       apply St.ext2 <;> simp [adv2, flatElse]
+    · have h1f : s1.forCounter = s.forCounter := by rw [e1]
+      simp only [flatElse]
+      exact LinesOK.cons (sline_plain _ _ _ _ rfl rfl) (by rw [← h1f]; exact hlcs)
     · intro fuel c o c' hs m hi
       obtain ⟨m', o', ex, hr, ho, hk, hv⟩ := sim fuel c o c' hs m hi
       refine ⟨m', o', ExecElifs.els ex, hr, ho, fun hne => ?_, hv⟩
@@ -546,7 +576,7 @@ theorem else_semF {ctx : Ctx} {T : List FEntry} {B : Nat} (hT : TableOK T) (hctx
 
 theorem elifs_semF {ctx : Ctx} {T : List FEntry} {B : Nat} (hT : TableOK T) (hctx : CtxOK ctx T B) (elifs : List (Expr × List Stmt)) (hf : fragEl (tnames T) elifs = true) :
     ∀ ecs s s', ctxOf s = ctx → B ≤ s.forCounter → evalElifs conv elifs ecs s = .ok ((), s') →
-      ∃ tree n mm, s' = adv2 s (flatElifs tree).reverse n mm ∧
+      ∃ tree n mm, s' = adv2 s (flatElifs tree).reverse n mm ∧ LinesOK ctx (s.forCounter + mm) (tnames T) (flatElifs tree) ∧
         ∀ els elseT k0, s'.forCounter ≤ k0 → ElseSimF ctx T B els elseT k0 →
           ∀ fuel bs c o c', execEl fuel elifs bs els c = some (o, c') →
             ∀ m, Inv ctx T c m → GuardValsF ecs bs m.ρ →
@@ -557,7 +587,7 @@ theorem elifs_semF {ctx : Ctx} {T : List FEntry} {B : Nat} (hT : TableOK T) (hct
     intro ecs s s' hc hB h
     unfold evalElifs at h
     obtain ⟨_, es⟩ := pure_ok h
-    refine ⟨[], 0, 0, es, ?_⟩
+    refine ⟨[], 0, 0, es, by simp [flatElifs]; exact LinesOK.nil _ _ _, ?_⟩
     intro els elseT k0 hk hsim fuel bs c o c' hs m hi _
     obtain ⟨f, hs'⟩ := src_el_nil hs
     obtain ⟨m', o', ex, hr, ho, hkk, hv⟩ := hsim f c o c' hs' m hi
@@ -570,7 +600,7 @@ theorem elifs_semF {ctx : Ctx} {T : List FEntry} {B : Nat} (hT : TableOK T) (hct
     | [] =>
       unfold evalElifs at h
       obtain ⟨_, es⟩ := pure_ok h
-      refine ⟨[], 0, 0, es, ?_⟩
+      refine ⟨[], 0, 0, es, by simp [flatElifs]; exact LinesOK.nil _ _ _, ?_⟩
       intro els elseT k0 hk hsim fuel bs c o c' hs m hi hgv
       cases bs <;> simp [GuardValsF] at hgv
       -- no guard texts: the source chain has no values either, it runs the else part
@@ -596,11 +626,15 @@ theorem elifs_semF {ctx : Ctx} {T : List FEntry} {B : Nat} (hT : TableOK T) (hct
       have hc3 : ctxOf s3 = ctx := by rw [e3, hb.ctx]; exact hc1
       have hB3 : B ≤ s3.forCounter := by rw [e3]; exact Nat.le_trans (by rw [e1]; exact hB) hb.forCounter
       have hr := elifs_semF hT hctx rest hf.2 cs s3 s' hc3 hB3 h4
-      obtain ⟨bc, nb, mb, eb, simb⟩ := hb
-      obtain ⟨tree, nt, mt, et, simt⟩ := hr
-      refine ⟨(.ifStart "elif" t, bc) :: tree, nb + nt, mb + mt, ?_, ?_⟩
+      obtain ⟨bc, nb, mb, eb, hlb, simb⟩ := hb
+      obtain ⟨tree, nt, mt, et, hlt, simt⟩ := hr
+      refine ⟨(.ifStart "elif" t, bc) :: tree, nb + nt, mb + mt, ?_, ?_, ?_⟩
       · rw [et, e3, eb, e1]
         apply St.ext2 <;> simp [adv2, flatElifs, Nat.add_assoc, List.reverse_append]
+      · have h1f : s1.forCounter = s.forCounter := by rw [e1]
+        have h3f : s3.forCounter = s1.forCounter + mb := by rw [e3, eb]; rfl
+        simp only [flatElifs]
+        exact LinesOK.cons (sline_plain _ _ _ _ rfl rfl) ((hlb.mono (by omega)).append (hlt.mono (by omega)))
       · intro els elseT k0 hk hsim fuel bs c o c' hs m hi hgv
         match bs, hgv with
         | v :: bs', hgv =>
